@@ -96,8 +96,15 @@ def handle : Handler := fun op inp =>
       let order ← natList (← field inp "order")
       let n := cells.length
       let cs := effChunk n cfg.nProc cfg.chunkSize
+      -- "borders": the chunk borders the workers were really handed (hook
+      -- trace); absent => the clamp of the present code
+      let borders ← asOption (asList (asPair asNat asNat)) (fieldD inp "borders" Json.null)
+      let res := match borders with
+        | some b => mapPipelineChunks t cfg vote ids cells b order
+        | none => mapPipeline t cfg vote ids cells order
       return jObj [
-        ("result", jExcept (jList jRecord) (mapPipeline t cfg vote ids cells order)),
+        ("result", jExcept (jList jRecord) res),
+        ("tiles", jBool (tilesB n (borders.getD (chunks n cs)))),
         ("runTree", jExcept Tree.jTree (runTree t cfg)),
         ("runTreeWf", jBool (match runTree t cfg with | .ok rt => wfb rt | .error _ => false)),
         ("effChunk", jNat cs),
